@@ -153,9 +153,12 @@ fn main() {
 pub fn gen_grazing(rng: &mut Rng, n: usize, out: &mut Vec<String>) {
     for i in 0..n {
         let near = *rng.pick(&[1e-4f32, 1e-3, 1e-5, 1e-2]);
-        let far = near * *rng.pick(&[100.0f32, 1000.0]);
+        // receding triangles: the inside vertices hundreds of times deeper than the grazing ones, so
+        // the crossing parameter on the side plane is ~1e-5 (breaks any snapping of t to 0 or 1)
+        let deep = rng.chance(1, 2);
+        let far = near * if deep { 1000.0 } else { *rng.pick(&[100.0f32, 1000.0]) };
         let focal = *rng.pick(&[1.0f32, 2.0, 0.5]);
-        let w = 40 + rng.below(40) as u32;
+        let w = if deep && rng.bool() { 150 + rng.below(250) as u32 } else { 40 + rng.below(40) as u32 };
         let h = 4 + rng.below(12) as u32;
         let (l, t, r, b) = if i % 2 == 0 { (0, 0, w, h) } else { (3, 1, w - 4, h - 1) };
         let aspect = (r - l) as f32 / (b - t) as f32;
@@ -165,9 +168,10 @@ pub fn gen_grazing(rng: &mut Rng, n: usize, out: &mut Vec<String>) {
             h32(focal), h32(near), h32(far), h32(0.0)
         );
         for j in 0..3 {
-            let z = near * rng.f32_in(1.5, 8.0);
+            let outside = j < 1 + (i % 2);
+            let z = if deep && !outside { far * rng.f32_in(0.5, 0.95) } else if deep { near * rng.f32_in(1.05, 3.0) } else { near * rng.f32_in(1.5, 8.0) };
             // inside, or beyond the left/right/top/bottom plane by delta (relative)
-            let delta = if j < 1 + (i % 2) { *rng.pick(&[0.005f32, 0.02, 0.05, 0.1]) } else { -rng.f32_in(0.05, 0.9) };
+            let delta = if outside { *rng.pick(&[0.005f32, 0.02, 0.05, 0.1]) } else { -rng.f32_in(0.05, 0.9) };
             let side = if rng.bool() { 1.0 } else { -1.0 };
             let (mut x, mut y) = (rng.f32_in(-0.8, 0.8) * z / focal, rng.f32_in(-0.8, 0.8) * z / (focal * aspect));
             if rng.bool() {
